@@ -55,6 +55,11 @@ type Sched struct {
 	MaxSteps int
 	touches  map[int]touch // pending Touch per thread parked at a Touch point
 	Races    []string
+	// Chooser, if set, replaces the prefix/default choice: it gets the enabled thread ids in canonical
+	// order and returns the index to run (conformance replay of model traces); it is consulted at EVERY
+	// decision, also when a single thread is enabled, so that the caller sees every step boundary.
+	Chooser    func(enabled []int) int
+	inspecting bool
 }
 
 type touch struct {
@@ -65,8 +70,23 @@ type touch struct {
 
 var cur *Sched
 
-// Active reports whether a scheduler is attached.
-func Active() bool { return cur != nil && cur.active }
+// Active reports whether a scheduler is attached (and not suspended for an inspection).
+func Active() bool { return cur != nil && cur.active && !cur.inspecting }
+
+// Inspect runs f with scheduling suspended: locks taken inside f (state dumps through the LRU's own
+// accessors) are plain flag operations. Only safe while every other thread is parked at a scheduling
+// point outside the critical sections f enters, which holds for the LRU locks: no LRU operation
+// contains a scheduling point.
+func Inspect(f func()) {
+	if cur == nil {
+		f()
+		return
+	}
+	was := cur.inspecting
+	cur.inspecting = true
+	defer func() { cur.inspecting = was }()
+	f()
+}
 
 func (s *Sched) enabled(curOK bool) []int {
 	var e []int
@@ -89,6 +109,15 @@ func (s *Sched) decide(curRunnable bool, at string) int {
 	en := s.enabled(curRunnable)
 	if len(en) == 0 {
 		return -1
+	}
+	if s.Chooser != nil {
+		ch := s.Chooser(en)
+		if ch < 0 || ch >= len(en) {
+			s.Err = "chooser: the requested thread is not enabled"
+			ch = 0
+		}
+		s.Points = append(s.Points, Point{Enabled: en, CurEnabled: curRunnable, Chosen: ch, At: at})
+		return en[ch]
 	}
 	if len(en) == 1 {
 		return en[0]
@@ -169,7 +198,12 @@ func unblockAll(on any) {
 // Run executes the bodies as logical threads under the schedule prefix (choice 0,
 // "keep running", at every later point).
 func Run(prefix []int, maxSteps int, bodies []func()) *Sched {
-	s := &Sched{prefix: prefix, fin: make(chan struct{}), MaxSteps: maxSteps, touches: map[int]touch{}}
+	return RunWith(prefix, maxSteps, nil, bodies)
+}
+
+// RunWith is Run with an optional chooser (see Sched.Chooser).
+func RunWith(prefix []int, maxSteps int, chooser func(enabled []int) int, bodies []func()) *Sched {
+	s := &Sched{prefix: prefix, fin: make(chan struct{}), MaxSteps: maxSteps, touches: map[int]touch{}, Chooser: chooser}
 	for i := range bodies {
 		s.threads = append(s.threads, &thread{id: i, wake: make(chan struct{})})
 	}
